@@ -4,64 +4,64 @@
   from the C20 model), tied to bitstream/serdes.py by the `sd` correspondence; helper lemmas:
   VC2/Proofs/Serdes.lean.
 -/
-import VC2.Proofs.Serdes
+import VC2.Proofs.SerdesOnes
 namespace VC2.Props.C21
 open VC2 VC2.Model.Serdes VC2.Proofs.Serdes
 
 /-- **serialise then deserialise** — for every description program (primitive fields, list
-    targets, nested sub-descriptions, lists of sub-descriptions, bounded blocks whose body fits,
-    byte alignment, computed values; any nesting depth and length), every prefix codec and every
-    description: if serialisation succeeds (all values present, none unused), deserialising the
+    targets, nested sub-descriptions, lists of sub-descriptions, bounded blocks — whether their
+    contents fit or run past the end with 1-bits —, byte alignment, computed values; any nesting depth
+    and length), every prefix codec whose trailing 1-bits are bounded, and every description: if serialisation succeeds (all values present, none unused), deserialising the
     produced bits with the same program — whatever follows them — yields exactly the description
     that was consumed (`used`: the same keys and values, computed values included, listed in
     program order) and stops exactly behind the bits. -/
-theorem serialise_then_deserialise (C : Codec) (hS : Sound C) (prog : List Stmt) (d : Dict)
+theorem serialise_then_deserialise (C : Codec) (hS : Sound C) (hO : OnesBound C) (prog : List Stmt) (d : Dict)
     (bits : List Bool) (used : Dict) (h : serialise C prog d = some (bits, used)) (rest : List Bool) :
     deserialise C prog (bits ++ rest) = some (used, rest) := by
   unfold serialise at h
   split at h
   · rename_i b u hb
     simp at h; obtain ⟨h1, h2⟩ := h; subst h1 h2
-    exact (serBody_des C hS prog 0 d [] b u [] hb (by intro k _; rfl) rest).1
+    exact (serBody_des C hS hO prog false 0 d [] b u [] hb (by intro k _; rfl)).1 _ rest (realOf_whole false b rest)
   · cases h
 
 /-- the same, for the real bit layer: the codec of the C20 model is a prefix code -/
 theorem serialise_then_deserialise_bits (prog : List Stmt) (d : Dict) (bits : List Bool) (used : Dict)
     (h : serialise bitCodec prog d = some (bits, used)) (rest : List Bool) :
     deserialise bitCodec prog (bits ++ rest) = some (used, rest) :=
-  serialise_then_deserialise bitCodec bitCodec_sound prog d bits used h rest
+  serialise_then_deserialise bitCodec bitCodec_sound bitCodec_onesBound prog d bits used h rest
 
 /-- **an unused value makes serialisation fail** -/
 theorem unused_value_fails (C : Codec) (prog : List Stmt) (d : Dict) (b : List Bool) (used left : Dict)
-    (h : serBody C 0 prog d [] = some (b, used, left)) (hl : left ≠ []) : serialise C prog d = none := by
+    (h : serBody C false 0 prog d [] = some (b, used, left)) (hl : left ≠ []) : serialise C prog d = none := by
   unfold serialise; rw [h]
   cases left with
   | nil => exact absurd rfl hl
   | cons _ _ => rfl
 
 /-- **a missing value makes serialisation fail** (no default-value table in the model) -/
-theorem missing_value_fails (C : Codec) (pos : Nat) (t : String) (k : Prim) (d acc : Dict)
-    (h : d.get? t = none) : serStmt C pos (.prim t k) d acc = none := by
+theorem missing_value_fails (C : Codec) (blk : Bool) (pos : Nat) (t : String) (k : Prim) (d acc : Dict)
+    (h : d.get? t = none) : serStmt C blk pos (.prim t k) d acc = none := by
   simp [serStmt, h]
 
 /-- **deserialisation never overwrites a value**: a target that is already set is refused, by
     every kind of statement -/
-theorem deserialiser_never_overwrites (C : Codec) (pos : Nat) (t : String) (acc : Dict) (bits : List Bool)
+theorem deserialiser_never_overwrites (C : Codec) (blk : Bool) (pos : Nat) (t : String) (acc : Dict) (bits : List Bool)
     (h : acc.has t = true) :
-    (∀ k, desStmt C pos (.prim t k) acc bits = none) ∧
-    (∀ ks, desStmt C pos (.primList t ks) acc bits = none) ∧
-    (∀ body, desStmt C pos (.sub t body) acc bits = none) ∧
-    (∀ bodies, desStmt C pos (.subList t bodies) acc bits = none) ∧
-    (desStmt C pos (.align t) acc bits = none) ∧
-    (∀ v, desStmt C pos (.computed t v) acc bits = none) := by
-  refine ⟨?_, ?_, ?_, ?_, ?_, ?_⟩ <;> intros <;> simp [desStmt, h]
+    (∀ k, desStmt C blk pos (.prim t k) acc bits = none) ∧
+    (∀ ks, desStmt C blk pos (.primList t ks) acc bits = none) ∧
+    (∀ body, desStmt C blk pos (.sub t body) acc bits = none) ∧
+    (∀ bodies, desStmt C blk pos (.subList t bodies) acc bits = none) ∧
+    (desStmt C blk pos (.align t) acc bits = none) ∧
+    (∀ v, desStmt C blk pos (.computed t v) acc bits = none) := by
+  refine ⟨?_, ?_, ?_, ?_, ?_, ?_⟩ <;> intros <;> cases blk <;> simp [desStmt, h]
 
 /-- a computed value may not be set twice (ReusedTargetError in the serialiser too); a value SUPPLIED
     for a computed target is overwritten by the computed one ("any existing value in the context
     will be overwritten") and counts as used -/
-theorem computed_value_semantics (C : Codec) (pos : Nat) (t : String) (v : Int) (d acc : Dict) :
-    (acc.has t = true → serStmt C pos (.computed t v) d acc = none) ∧
-    (acc.has t = false → serStmt C pos (.computed t v) d acc = some ([], acc ++ [(t, .leaf (.int v))], d.erase t)) := by
+theorem computed_value_semantics (C : Codec) (blk : Bool) (pos : Nat) (t : String) (v : Int) (d acc : Dict) :
+    (acc.has t = true → serStmt C blk pos (.computed t v) d acc = none) ∧
+    (acc.has t = false → serStmt C blk pos (.computed t v) d acc = some ([], acc ++ [(t, .leaf (.int v))], d.erase t)) := by
   constructor <;> intro h <;> simp [serStmt, h]
 
 /-! ### non-vacuity: lists of typed sub-descriptions, a bounded block with trailing padding, byte
@@ -86,5 +86,17 @@ example : ((serialise bitCodec prog0 ctx0).bind (fun r => (deserialise bitCodec 
     = some (["flag", "items", "a", "b", "pad", "offset", "al", "tail"], [true, true]) := by decide +kernel
 example : (serialise bitCodec prog0 (ctx0 ++ [("extra", .leaf (.int 1))])).isNone = true := by decide +kernel
 example : (serialise bitCodec prog0 (ctx0.erase "a")).isNone = true := by decide +kernel
+
+/-! a bounded block that ends INSIDE its contents: three signed values in a 5-bit block; the bits past
+    the end (all 1) are not stored, and reading them back gives the same values -/
+def prog1 : List Stmt := [.block "pad" 5 [.primList "c" [.sint, .sint, .sint]], .prim "after" (.nbits 2)]
+def ctx1 : Dict := [("c", .list [.leaf (.int 1), .leaf (.int (-2)), .leaf (.int 0)]), ("pad", .leaf (.bits [])), ("after", .leaf (.int 2))]
+example : (serialise bitCodec prog1 ctx1).map (·.1) = some [false, false, true, false, false, true, false] := by decide +kernel
+example : (((serialise bitCodec prog1 ctx1).bind (fun r => deserialise bitCodec prog1 r.1)).bind
+      (fun q => serialise bitCodec prog1 q.1)).map (·.1) = some [false, false, true, false, false, true, false] := by
+  decide +kernel
+-- a 0-bit where only 1s may go is refused
+example : (serialise bitCodec prog1 [("c", .list [.leaf (.int 1), .leaf (.int 2), .leaf (.int 0)]), ("pad", .leaf (.bits [])), ("after", .leaf (.int 2))]).isNone = true := by
+  decide +kernel
 
 end VC2.Props.C21
